@@ -75,6 +75,7 @@ type scenarioResult struct {
 	Executions      int64        `json:"executions"`
 	Decisions       int64        `json:"decisions"`
 	Outcomes        int          `json:"distinct_outcomes"`
+	PathDiffers     int64        `json:"schedules_where_a_goroutine_took_another_path_than_alone"`
 	BoundCompleted  int          `json:"preemption_bound_completed"`
 	AllPointsBound  int          `json:"preemption_bound_completed_every_point"`
 	Capped          bool         `json:"capped"`
@@ -243,8 +244,10 @@ func runScenario(name, tier string) *scenarioResult {
 				return false
 			}
 			if seqStable && (x.seqHash[t] != profs[t].seqHash || x.pcount[t] != profs[t].points) {
-				res.Violations = append(res.Violations, violation{Class: "interference/control-flow-differs-from-solo-run", What: fmt.Sprintf("thread %d executed %d points under this schedule, %d alone (or a different path)", t, x.pcount[t], profs[t].points), Scenario: name, Schedule: choices, AllPts: allPts, Detail: describeSchedule(x)})
-				return false
+				// a goroutine took another path than it takes alone. The property speaks of results and data
+				// races only, and a properly synchronised cache (sync.Once, atomic.Value, sync.Pool) legitimately
+				// makes the path depend on who came first: counted, not reported
+				res.PathDiffers++
 			}
 		}
 		return true
